@@ -828,7 +828,12 @@ int mpq_EGlpNumReadStrXc (mpq_t var,
 		/* ending */
 		mpq_canonicalize (den[0]);
 		mpq_canonicalize (den[1]);
-		mpq_div (var, den[0], den[1]);
+		/* a zero denominator (as in "1/0" or "1/") is not a number: report that
+		 * nothing was read instead of dividing by zero */
+		if (mpz_sgn (mpq_numref (den[1])) == 0)
+			n_char = 0;
+		else
+			mpq_div (var, den[0], den[1]);
 	}
 	mpq_clear (den[0]);
 	mpq_clear (den[1]);
